@@ -293,6 +293,34 @@ def dtype_code(dt):
 CLASS_INFO = {0: ("O", [0], []), 1: ("O1", [1, 0], []), 2: ("P", [2], []), 3: ("Q", [3, 2], []),
               4: ("R", [4], [2]), 5: ("A", [5, 0], []), 6: ("FwdP", [6], []), 7: ("FwdQ", [7, 6], []),
               9: ("RtoP", [9], [])}
+# falsy flavours (0 truthy, 1 __bool__ returning False, 2 __len__ returning 0) of the adaptable class R and of the
+# adapter its factory builds: cid 40 + 3 * (flavour of the adaptee) + (flavour of its adapter); of class P: cid 20 + flavour
+FLAVOURS = ("truthy", "bool-false", "len-zero")
+for _a in range(3):
+    for _b in range(3):
+        if _a or _b:
+            CLASS_INFO[40 + 3 * _a + _b] = ("R_%d%d" % (_a, _b), [40 + 3 * _a + _b, 4], [2])
+for _a in (1, 2):
+    CLASS_INFO[20 + _a] = ("P_%d" % _a, [20 + _a, 2], [])
+
+
+def flavoured(cls, flavour, name):
+    """Subclass of cls whose instances are falsy: flavour 1 defines __bool__ returning False, 2 __len__ returning 0."""
+    ns = {"__repr__": lambda self: "<%s>" % name}
+    if flavour == 1:
+        ns["__bool__"] = lambda self: False
+    elif flavour == 2:
+        ns["__len__"] = lambda self: 0
+    return type(name, (cls,), ns)
+
+
+def inst_flavours(cid):
+    """(flavour of the object itself, flavour of the adapter its class's factory builds) of an `inst` value."""
+    if 40 <= cid <= 48:
+        return (cid - 40) // 3, (cid - 40) % 3
+    if cid in (21, 22):
+        return cid - 20, 0
+    return 0, 0
 
 TY_NAMES = ["str", "int", "float", "complex", "bool", "bytes", "list", "tuple", "dict", "function",
             "method", "type", "NoneType", "module", "npbool", "object"]
@@ -344,8 +372,23 @@ def world():
         def __repr__(self):
             return "<A>"
 
-    register_factory(RtoP, R, P)
+    # the adapter objects themselves come in the three flavours: the registered factory picks the adapter class
+    # from the class of the adaptee (a perfectly legitimate adapter may be an empty container view)
+    w.adapters = {0: RtoP, 1: flavoured(RtoP, 1, "RtoP_b"), 2: flavoured(RtoP, 2, "RtoP_l")}
+
+    def r_to_p(adaptee):
+        return w.adapters[getattr(type(adaptee), "adapter_flavour", 0)](adaptee=adaptee)
+
+    register_factory(r_to_p, R, P)
     w.classes = {0: O, 1: O1, 2: P, 3: Q, 4: R, 5: A, 6: FwdP, 7: FwdQ, 9: RtoP}
+    for a in range(3):
+        for b in range(3):
+            if a or b:
+                c = flavoured(R, a, "R_%d%d" % (a, b))
+                c.adapter_flavour = b
+                w.classes[40 + 3 * a + b] = c
+    for a in (1, 2):
+        w.classes[20 + a] = flavoured(P, a, "P_%d" % a)
     w.cid_of = {O: 0, O1: 1, P: 2, Q: 3, R: 4, RtoP: 9}
     w.types = {"str": str, "int": int, "float": float, "complex": complex, "bool": bool, "bytes": bytes,
                "list": list, "tuple": tuple, "dict": dict, "function": types.FunctionType,
@@ -512,6 +555,8 @@ def build_value(t, ctx):
         return MyTuple(build_value(x, ctx) for x in t[1:])
     if h == "l":
         return [build_value(x, ctx) for x in t[1:]]
+    if h == "st":          # a set (implementation-only streams: the Lean driver has no such term)
+        return set(build_value(x, ctx) for x in t[1:])
     raise ValueError("unknown value term " + show_sexp(t))
 
 
@@ -570,6 +615,8 @@ def canon(o, ctx):
         return ["ts"] + [canon(x, ctx) for x in o]
     if t is list:
         return ["l"] + [canon(x, ctx) for x in o]
+    if t is set:
+        return ["st"] + sorted((canon(x, ctx) for x in o), key=show_sexp)
     if isinstance(o, type):
         for cid, c in ctx.classes.items():
             if o is c:
@@ -585,7 +632,7 @@ def canon(o, ctx):
                 return [tag, str(i)]
     if t is np.ndarray:
         return ["nd", str(dtype_code(o.dtype)), [str(x) for x in o.shape]]
-    if t is ctx.classes[9]:
+    if isinstance(o, ctx.classes[9]):
         a = o.adaptee
         ak = ctx.rev.get(id(a))
         oid = 1000 + int(parse_sexp(ak)[4]) if ak else 999
@@ -702,6 +749,17 @@ def _build_with(t, ctx, cls):
         return T.PrefixList([dec(x) for x in t[1:]])
     if h == "PrefixMap":
         return T.PrefixMap(dict((dec(k), build_value(v, ctx)) for k, v in t[1:]))
+    # ---- terms of the implementation-only (`#`) streams: the Lean driver does not know them
+    if h == "List":
+        return T.List(_inner(t[1], ctx))
+    if h == "Dict":
+        return T.Dict()
+    if h == "Set":
+        return T.Set()
+    if h == "Supports":
+        return T.Supports(build_type(t[1], ctx), allow_none=t[2] == "1")
+    if h == "AdaptsTo":
+        return T.AdaptsTo(build_type(t[1], ctx), allow_none=t[2] == "1")
     if h == "CoerceH":
         return H.TraitCoerceType(build_type(t[1], ctx))
     if h == "CastH":
@@ -1000,11 +1058,19 @@ def lattice():
     L += ["(idxflt (ret 3) (ret 10))", "(idxflt (ret 3) (exc ValueError))", "(idxflt (exc TypeError) (ret 4))"]
     L += ["(inst 0 (0) () 1)", "(inst 1 (1 0) () 2)", "(inst 2 (2) () 3)", "(inst 3 (3 2) () 4)",
           "(inst 4 (4) (2) 5)", "(inst 2 (2) () 6)"]
+    L += INST_FALSY
     L += ["(cls 0 (0))", "(cls 1 (1 0))", "(cls 2 (2))", "(cls 3 (3 2))", "(cls 4 (4))",
           "(ty int)", "(ty float)", "(ty str)", "(ty bool)", "(ty object)"]
     L += ["(fn 0)", "(fn 1)", "(meth 0)", "(bfn 0)", "(mod 0)", "(mod 1)", "(obj 0)", "(badeq 0)",
           "(dict 0)", "(dict 1)"]
     return L
+
+
+# falsy objects wherever adaptation looks at a value: adaptees whose ADAPTER is falsy (41 __bool__, 42 __len__),
+# falsy adaptees with a truthy / falsy adapter (43, 47), falsy instances of the target class itself (21, 22)
+INST_FALSY = ["(inst 41 (41 4) (2) 21)", "(inst 42 (42 4) (2) 22)", "(inst 43 (43 4) (2) 23)", "(inst 47 (47 4) (2) 24)",
+              "(inst 21 (21 2) () 25)", "(inst 22 (22 2) () 26)"]
+INST_VALUES = INST_FALSY + ["(inst 4 (4) (2) 5)", "(inst 2 (2) () 3)", "(inst 3 (3 2) () 4)", "(inst 0 (0) () 1)"]
 
 
 def value_class(t):
@@ -1093,6 +1159,8 @@ def single_traits():
             "(Tuple (Instance (u 2) 1 0 N) (Callable 1))", "(Tuple (Base Int) (RangeI 0 2 0 0))",
             "(Tuple Bool Complex)", "(Tuple (Either 1 Int Str) Float)", "(Tuple (CastH float) (CoerceH int))",
             "(Tuple (Instance (u 2) 1 2 N) Int)", "(Union (Instance (u 2) 0 2 N) Str)",
+            "(Tuple (Instance (u 2) 0 1 N) Int)", "(Union Str (Instance (u 2) 1 1 N))",
+            "(Either 0 (Instance (u 2) 0 1 N) Str)", "(Either 0 Int (Instance (u 2) 1 1 N))",
             "(BaseTuple Int Int)", "(BaseTuple Float Str)", "(BaseTuple (Tuple Int Int) Str)"]
     for c in ("(u 2)", "(u 0)"):
         for an in "01":
@@ -1151,7 +1219,7 @@ LEAVES = ["Int", "Float", "Complex", "Str", "Bytes", "Bool", "CInt", "CFloat", "
           "(RangeF 0 8 0 0)", "(RangeF -4 8 1 1)", "(RangeF N 0 0 1)", "(RangeF 0 N 1 0)", "(RangeI 0 2 0 0)",
           "(RangeI -1 N 1 0)", "(Enum (i 1) (i 2) (i 3))", "(Enum (s a) (s yes) N)", "(Enum (f 4) (t (i 1) (i 2)))",
           "(Map ((s yes) (i 1)) ((s no) (i 0)))", "(Instance (u 2) 1 0 N)", "(Instance (u 2) 0 0 N)",
-          "(Instance (u 2) 0 1 N)", "(Instance int 0 0 N)", "(Instance (u 0) 0 0 N)",
+          "(Instance (u 2) 0 1 N)", "(Instance (u 2) 1 1 N)", "(Instance int 0 0 N)", "(Instance (u 0) 0 0 N)",
           "(This 0)", "(This 1)", "(Callable 1)", "(Callable 0)", "Module", "(Type (u 2) 0)", "(Type object 1)",
           "(String 1 3 N)", "(String 0 N 0)", "(PrefixList yes no yellow)", "(Base Int)", "(Base Float)",
           "(Base Str)", "(Base (Enum (i 1) (i 2)))", "TupleAny", "(Base (Callable 1))", "Any",
@@ -1199,6 +1267,8 @@ def random_value_for(rng, tt, L, depth=0):
             items.append("(i 1)")
         tag = "ts" if rng.random() < 0.15 else ("l" if rng.random() < 0.05 else "t")
         return "(%s)" % " ".join([tag] + items) if items else "(%s)" % tag
+    if isinstance(t, list) and t[0] == "Instance" and isinstance(t[1], list) and rng.random() < 0.5:
+        return rng.choice(INST_VALUES)        # instances, adaptable objects, falsy ones among them
     if isinstance(t, list) and t[0] in ("Either", "Union", "CompoundH") and rng.random() < 0.8 and depth < 4:
         alts = t[2:] if t[0] == "Either" else t[1:]
         alts = [a for a in alts if a != "NoneT"]
